@@ -59,7 +59,50 @@ fn compare(name: &str, setup: &[&str], queries: &[&str]) {
     println!("  plan(before): {}", ex);
 }
 
+fn probe_expand() {
+    println!("== expand-target pushdown");
+    let setup = [
+        "CREATE (:P {h:1, x:1})",
+        "CREATE (:P {h:2, x:1.0})",
+        "CREATE (:Q {h:4, x:1})",
+        "CREATE (:T {h:3})",
+        "MATCH (a:P {h:1}), (b:T) CREATE (b)-[:R]->(a)",
+        "MATCH (a:P {h:2}), (b:T) CREATE (b)-[:R]->(a)",
+        "MATCH (a:Q {h:4}), (b:T) CREATE (b)-[:R]->(a)",
+    ];
+    let qs = [
+        "MATCH (m:T)-[:R]->(n:P) WHERE n.x = 1 RETURN n.h",
+        "MATCH (m:T)-[:R]->(n) WHERE n.x = 1 RETURN n.h",
+        "MATCH (m:T)-[:R]->(n:P {x: 1}) RETURN n.h",
+    ];
+    for idx in ["", "CREATE INDEX ON :Q(x)", "CREATE INDEX ON :P(x)"] {
+        for native in ["false", "true"] {
+            std::env::set_var("SAMYAMA_GRAPH_NATIVE", native);
+            let e = QueryEngine::new();
+            let mut s = GraphStore::new();
+            for st in setup.iter() { w(&e, &mut s, st); }
+            if !idx.is_empty() { w(&e, &mut s, idx); }
+            for qq in qs.iter() {
+                println!("  idx=[{}] native={} {} -> {}", idx, native, qq, q(&e, &s, qq));
+            }
+        }
+    }
+    println!("== native target label (no index)");
+    for native in ["false", "true"] {
+        std::env::set_var("SAMYAMA_GRAPH_NATIVE", native);
+        let e = QueryEngine::new();
+        let mut s = GraphStore::new();
+        for st in setup.iter() { w(&e, &mut s, st); }
+        for i in 10..20 { w(&e, &mut s, &format!("CREATE (:P {{h:{}, x:5}})", i)); }
+        for qq in ["MATCH (m:T)-[:R]->(n:P) RETURN n.h", "MATCH (m:T)-[:R]->(n:P) WHERE n.x >= 1 RETURN n.h", "MATCH (n:P)<-[:R]-(m:T) RETURN n.h, m.h"] {
+            println!("  native={} {} -> {}", native, qq, q(&e, &s, qq));
+        }
+    }
+    std::env::remove_var("SAMYAMA_GRAPH_NATIVE");
+}
+
 fn main() {
+    probe_expand();
     let base = [
         "CREATE (:P {h:1, x:1})",
         "CREATE (:P {h:2, x:1.0})",
@@ -92,6 +135,22 @@ fn main() {
             "MATCH (n:P) WHERE n.x > 1 RETURN count(n)",
             "MATCH (n:P) WHERE n.x = [1] RETURN n.h",
             "MATCH (n:P) WHERE n.x = null RETURN n.h",
+        ],
+    );
+    compare(
+        "with-path",
+        &base,
+        &[
+            "MATCH (n:P) WHERE n.x > 1 WITH n RETURN n.h",
+            "MATCH (n:P) WHERE n.x < 3 WITH n RETURN n.h",
+            "MATCH (n:P) WHERE n.x > 1 WITH n.h AS h RETURN h",
+            "MATCH (n:P) WHERE n.x >= 2 WITH n MATCH (m:P) WHERE m.h = n.h RETURN m.h",
+            "MATCH (n:P) WHERE n.x > 1 RETURN n.h ORDER BY n.h LIMIT 10",
+            "MATCH (n:P) WHERE n.x > 1 RETURN DISTINCT n.h",
+            "MATCH (n:P {x: 7}) WITH n RETURN n.h",
+            "MATCH (a:P), (n:P) WHERE n.x > 1 AND a.h = 1 RETURN n.h",
+            "OPTIONAL MATCH (n:P) WHERE n.x > 1 RETURN n.h",
+            "MATCH (a:P {h:1}) OPTIONAL MATCH (n:P) WHERE n.x > 1 RETURN n.h",
         ],
     );
     let mut v = base.to_vec();
